@@ -104,9 +104,25 @@ func liftNewClosures(pkgs []*packages.Package, readFile func(string) ([]byte, er
 	appended := map[string]*bytes.Buffer{}
 	var log []string
 	fileOf := func(p *packages.Package, f *ast.File) string { return p.Fset.Position(f.Pos()).Filename }
+	// a function in which a closure of the reference tree is missing has had a closure RENAMED: the unknown name is the
+	// old closure, which the rules know as a closure — nothing is lifted there
+	have := map[string]bool{}
+	eachLocalClosure(pkgs, func(lc localClosure) {
+		have[lc.pkg.PkgPath+"\t"+lc.recv+"\t"+lc.fd.Name.Name+"\t"+lc.varName] = true
+	})
+	renamedIn := map[string]bool{}
+	isBaselineClosure("", "", "", "")
+	for k := range baseClosureSet {
+		if !have[k] {
+			renamedIn[k[:strings.LastIndex(k, "\t")]] = true
+		}
+	}
 	eachLocalClosure(pkgs, func(lc localClosure) {
 		p := lc.pkg
 		if isBaselineClosure(p.PkgPath, lc.recv, lc.fd.Name.Name, lc.varName) {
+			return
+		}
+		if renamedIn[p.PkgPath+"\t"+lc.recv+"\t"+lc.fd.Name.Name] {
 			return
 		}
 		info := p.TypesInfo
